@@ -62,6 +62,13 @@ def _rows(r, system, n, integer=False, zeros=False):
                 rows[1] = tuple([0.0, 0.0, 2.5] + ([0.0] if dim == 4 else []))
             if dim == 4:
                 rows[2] = (0.0, 0.0, 0.0, 1.5)
+                if n > 4:
+                    # non-zero *lightlike* elements: their Minkowski norm is zero, they are not the zero vector
+                    rows[3] = (3.0, 4.0, 0.0, 5.0)
+                    rows[4] = (0.0, 0.0, -2.5, 2.5)
+        elif dim == 4 and system[2] == "tau" and n > 4:
+            rows[3] = tuple(list(rows[3][:3]) + [0.0])   # massless, stored with tau = 0
+            rows[4] = tuple(list(rows[4][:3]) + [-0.0])
     return rows
 
 
